@@ -1,7 +1,7 @@
 (* C11 - structural operations as functions on edge multisets with rational
    weights, and the weighted adjacency matrix they denote (executable
    definitions only).  adjacency = to_coo_matrix(): parallel edges add up. *)
-From Coq Require Import QArith List Bool Arith.
+From Coq Require Import QArith Qabs List Bool Arith.
 Import ListNotations.
 Close Scope Q_scope.
 
@@ -17,12 +17,16 @@ Fixpoint qadj (E : list qedge) (u v : nat) : Q :=
   | e :: t => if Nat.eqb (qsrc e) u && Nat.eqb (qdst e) v then (qw e + qadj t u v)%Q else qadj t u v
   end.
 
-(* wgraph_from_adjacency / wgraph_from_coo_matrix of a V x V matrix: one edge
-   per non-zero entry, row-major *)
-Definition mat_row (V : nat) (M : nat -> nat -> Q) (u : nat) : list qedge :=
-  flat_map (fun v => if Qeq_bool (M u v) 0 then [] else [(u, v, M u v)]) (seq 0 V).
+(* edge list of the stored entries of a V x V sparse matrix, row-major: entry
+   (u, v) is stored iff keep u v *)
+Definition pmat_row (V : nat) (keep : nat -> nat -> bool) (M : nat -> nat -> Q) (u : nat) : list qedge :=
+  flat_map (fun v => if keep u v then [(u, v, M u v)] else []) (seq 0 V).
+Definition pmat_edges (V : nat) (keep : nat -> nat -> bool) (M : nat -> nat -> Q) : list qedge :=
+  flat_map (pmat_row V keep M) (seq 0 V).
+(* wgraph_from_adjacency / wgraph_from_coo_matrix of a dense or arithmetic
+   result: one edge per non-zero entry *)
 Definition mat_edges (V : nat) (M : nat -> nat -> Q) : list qedge :=
-  flat_map (mat_row V M) (seq 0 V).
+  pmat_edges V (fun u v => negb (Qeq_bool (M u v) 0)) M.
 
 (* symmeterize (graph.py:858-868): wgraph_from_adjacency((A + A.T) / 2) *)
 Definition symmeterize_model (V : nat) (E : list qedge) : list qedge :=
@@ -30,9 +34,23 @@ Definition symmeterize_model (V : nat) (E : list qedge) : list qedge :=
 (* anti_symmeterize (870-880): wgraph_from_adjacency((A - A.T) / 2) *)
 Definition anti_symmeterize_model (V : nat) (E : list qedge) : list qedge :=
   mat_edges V (fun u v => Qred ((qadj E u v - qadj E v u) / 2)%Q).
-(* cut_redundancies (650-660) on its non-raising domain: coo -> csr -> coo *)
+(* cut_redundancies: coo -> csr -> coo keeps one stored entry per vertex pair
+   that occurs in the edge list (zero sums included), weights added *)
+Definition has_edge (E : list qedge) (u v : nat) : bool :=
+  existsb (fun e => Nat.eqb (qsrc e) u && Nat.eqb (qdst e) v) E.
 Definition cut_redundancies_model (V : nat) (E : list qedge) : list qedge :=
-  mat_edges V (fun u v => Qred (qadj E u v)).
+  pmat_edges V (has_edge E) (fun u v => Qred (qadj E u v)).
+
+(* normalize(c), c = 0 / 1: every edge weight divided by the sum of the weights
+   leaving its source (c = 0) / entering its target (c = 1); edge list unchanged *)
+Fixpoint out_sum (E : list qedge) (u : nat) : Q :=
+  match E with [] => 0%Q | e :: t => if Nat.eqb (qsrc e) u then (qw e + out_sum t u)%Q else out_sum t u end.
+Fixpoint in_sum (E : list qedge) (v : nat) : Q :=
+  match E with [] => 0%Q | e :: t => if Nat.eqb (qdst e) v then (qw e + in_sum t v)%Q else in_sum t v end.
+Definition normalize0_model (E : list qedge) : list qedge :=
+  map (fun e => (qsrc e, qdst e, Qred (qw e / out_sum E (qsrc e))%Q)) E.
+Definition normalize1_model (E : list qedge) : list qedge :=
+  map (fun e => (qsrc e, qdst e, Qred (qw e / in_sum E (qdst e))%Q)) E.
 
 (* remove_trivial_edges (975-988) *)
 Definition remove_trivial_model (E : list qedge) : list qedge :=
@@ -62,5 +80,17 @@ Fixpoint qel_eqb (a b : list qedge) : bool :=
   match a, b with
   | [], [] => true
   | x :: a', y :: b' => qedge_eqb x y && qel_eqb a' b'
+  | _, _ => false
+  end.
+
+(* an IEEE double f is the correctly rounded value of the rational r only if
+   |f - r| <= 2^-53 |r| (normal range); used to compare normalize() with its
+   exact model *)
+Definition close53 (f r : Q) : bool :=
+  Qle_bool (Qabs (f - r)) (Qabs r * (1 # 9007199254740992))%Q.
+Fixpoint qel_close (a b : list qedge) : bool :=
+  match a, b with
+  | [], [] => true
+  | x :: a', y :: b' => Nat.eqb (qsrc x) (qsrc y) && Nat.eqb (qdst x) (qdst y) && close53 (qw x) (qw y) && qel_close a' b'
   | _, _ => false
   end.
